@@ -1,8 +1,36 @@
 PROPERTY = "C10"
 LEVEL = "proof"
-FUNCTIONS = ["sqfs_meta_reader_seek"]
-TRUSTED = []
-ASSUMPTIONS = []
+FUNCTIONS = ["sqfs_meta_reader_seek", "sqfs_meta_reader_read",
+             "precache_data_block", "precache_fragment_block", "get_block",
+             "sqfs_data_reader_load_fragment_table",
+             "read_value_hdr", "sqfs_xattr_reader_read_value",
+             "sqfs_xattr_reader_load", "sqfs_xattr_reader_get_desc",
+             "sqfs_meta_reader_readdir", "sqfs_meta_reader_read_dir_header",
+             "sqfs_meta_reader_read_dir_ent", "sqfs_meta_reader_read_inode",
+             "sqfs_frag_table_lookup", "sqfs_id_table_index_to_id"]
+TRUSTED = [
+    "sqfs_file_t.read_at contract (harness/C10/rd_env.h): arbitrary bytes or any negative error; requires a writable buffer of the requested size; deterministic per offset",
+    "sqfs_compressor_t.do_block contract (un-compress): any r <= outsize or negative, writes only out[0..r)",
+    "sqfs_meta_reader_t contract (harness/C10/mr_contract.h) where a function only USES a metadata reader (readdir, read_inode, xattr reader): seek sets the cursor or fails, read delivers arbitrary bytes and moves the cursor arbitrarily or fails; the real seek/read are verified in meta_seek / meta_read",
+    "sqfs_frag_table_lookup / _read / _get_size contracts in the data reader harnesses (the real lookup is verified in frag_lookup, the real read in C05)",
+    "sqfs_meta_reader_create contract in xattr_load: fresh object or NULL",
+    "CBMC memory model: malloc/calloc return fresh non-overlapping objects, malloc'ed contents arbitrary; every allocation may fail (--malloc-may-fail)",
+    "CBMC array theory back end (--arrays-uf-always) for the 8 KiB..1 MiB buffers",
+]
+ASSUMPTIONS = [
+    "method: every operation is verified from an ARBITRARY cache state satisfying the representation invariant (or, for the data block cache, from every state reachable by one load from the empty cache - a load replaces the whole cache); together with determinism of read_at/do_block (assumed) tag-payload coherence is the induction step of 'cached payload = decode(image, tag)', hence answers are functions of (image, query)",
+    "cursor-relative calls are outside the claim: sqfs_meta_reader_read right after a FAILED seek (every high-level reader operation starts with a seek; C05.meta.seek_wf covers the memory safety of that sequence)",
+    "payload contents are tracked through one arbitrary witness position per buffer (all other bytes arbitrary), not byte for byte",
+    "the equivalence of the three file data APIs (C10.api.agree: stream / positional read / per-block access compute the same block index, offset and source) is NOT established here; each API is verified separately for memory safety and cache coherence only",
+    "sqfs_dir_reader_* (path resolution, open_dir, get_inode) and dir_iterator.c are not covered; their use of the readers is through the functions verified here",
+    "copies of reader objects (C19) and readers shared between threads are out of scope",
+    "xattr_load: the id table is bounded to <= 2 blocks (<= 1024 xattr ids) for the byte-swap loop; xattr_desc: id table of 3 blocks",
+]
+EXPLANATION = ("contracts on the real cache-touching functions of meta_reader.c, data_reader.c, "
+               "xattr_reader.c, readdir.c, read_inode.c: from an arbitrary well-formed cache/cursor "
+               "state and arbitrary image bytes, each operation leaves the cache tag naming exactly "
+               "the payload it holds (or no payload), never consults state owned by another query, "
+               "and returns an object fully determined by the delivered bytes")
 _FP = {"read_at": "stub_read_at", "do_block": "stub_do_block",
        "destroy": "meta_reader_destroy", "copy": "meta_reader_copy"}
 _FP_DR = {"read_at": "stub_read_at", "do_block": "stub_do_block",
@@ -43,4 +71,23 @@ HARNESSES = [
     dict(name="readdir", file="readdir.c", label="proved", timeout=170,
          nochecks=["--conversion-check"],
          malloc_fail=True, flags=["--arrays-uf-always"]),
+    # --- added after the lead's seeded-change run (C10-2, C10-3) ---------------
+    dict(name="read_inode", file="read_inode.c", label="proved", timeout=170,
+         malloc_fail=True, flags=["--arrays-uf-always"],
+         nochecks=["--conversion-check"],   # 32 bit payload size fields: C05
+         cases=[dict(id=n, defines={"ITYPE": t}, tier="quick")
+                for t, n in [(1, "dir"), (3, "slink"), (4, "bdev"), (5, "cdev"), (6, "fifo"),
+                             (7, "socket"), (10, "slink_ext"), (11, "bdev_ext"),
+                             (12, "cdev_ext"), (13, "fifo_ext"), (14, "socket_ext")]]),
+    dict(name="xattr_load", file="xattr_load.c", label="bounded(xattr id table blocks <= 2)",
+         timeout=170, malloc_fail=True,
+         fp={"read_at": "stub_read_at", "do_block": "stub_do_block",
+             "destroy": "xl_reader_destroy",
+             "copy": "xattr_reader_copy"},
+         cases=[dict(id="idblk%d" % k, defines={"NIDBLK": k}, tier="quick",
+                     unwindset=["sqfs_xattr_reader_load.0:%d" % (k + 1)]) for k in (0, 1, 2)]),
+    dict(name="xattr_desc", file="xattr_desc.c", label="proved", timeout=170,
+         fp={"read_at": "stub_read_at", "destroy": "xattr_reader_destroy",
+             "copy": "xattr_reader_copy"},
+         unwindset=["harness.0:4", "harness.1:9", "verif_nd_bytes.0:17", "memset.0:17"]),
 ]
